@@ -82,6 +82,10 @@ let () = main_loop (function
       (match text_load (cs = "1") enc v, text_widget (cs = "1") enc v (z_of_int (int_of_string low)) (z_of_int (int_of_string high)) with
        | Some (ok, _), Some r -> Printf.sprintf "frm %d %d %s" (if r then 1 else 0) (if ok then 1 else 0) (hex_of_bytes v)
        | _ -> "frm MODEL-FALLBACK")
+  | ["dv"; h] ->
+      let l = bytes_of_hex h in
+      let (c, r) = decode_valid l in
+      Printf.sprintf "dv %x:%d" (int_of_n c) (List.length l - List.length r)
   | ["cmp"; name] -> (match lookup (bytes_of_hex name) with Some _ -> "cmp 1" | None -> "cmp 0")
   | ["u2u"; h] ->
       let l = bytes_of_hex h in
